@@ -160,6 +160,10 @@ def write_pdx_file(
             zf_name = os.path.basename(output_file_name)
             with zf.open(zf_name, "w") as out_file:
                 file_index.append((zf_name, creation_date, mime_type))
+                # the file might already have been read, e.g. because
+                # the database has been written before
+                if data_file.seekable():
+                    data_file.seek(0)
                 out_file.write(data_file.read())
 
         jinja_env = jinja2.Environment(loader=jinja2.FileSystemLoader(templates_dir))
